@@ -383,6 +383,40 @@ pub fn run(tier: Tier) -> i32 {
             }
         }
     }
+    // a member's name is also used elsewhere in the file — as a constant, an immutable, a plain variable of another size, a struct
+    // member, a function, a parameter — before and after the container: the verdict of a container is about its own members
+    {
+        let others: Vec<(&str, &str)> = vec![
+            ("immutable", "contract Other { address immutable NAME ; uint256 filler ; constructor ( ) { NAME = msg . sender ; } }"),
+            ("constant-lib", "library Other { uint96 constant NAME = 1000 ; }"),
+            ("constant-file", "uint256 constant NAME = 7 ;"),
+            ("plain-other-size", "contract Other { uint8 NAME ; }"),
+            ("struct-member", "struct Other { uint8 NAME ; uint256 filler ; uint8 last ; }"),
+            ("function", "contract Other { function NAME ( uint8 NAME ) external { } }"),
+            ("mapping", "contract Other { mapping ( address => uint256 ) NAME ; }"),
+        ];
+        let bodies: Vec<(&str, &str)> = vec![
+            ("packable", "uint128 x ; uint256 y ; uint128 z ;"),
+            ("optimal", "address x ; uint96 y ; uint256 z ; bool w ;"),
+            ("packable4", "uint64 x ; uint256 y ; uint64 z ; uint128 w ;"),
+        ];
+        for (on, o) in &others {
+            for name in ["x", "y", "z", "w"] {
+                let o = o.replace("NAME", name);
+                for (bn, b) in &bodies {
+                    for (kn, open) in [("contract", "contract B {"), ("struct", "struct B {"), ("nested-struct", "contract Holder { struct B {")] {
+                        let close = if kn == "nested-struct" { "} }" } else { "}" };
+                        for first in [true, false] {
+                            let text = if first { format!("pragma solidity 0.8.19 ; {} {} {} {}", o, open, b, close) } else { format!("pragma solidity 0.8.19 ; {} {} {} {}", open, b, close, o) };
+                            let toks: Vec<String> = text.split(' ').filter(|x| !x.is_empty()).map(|x| x.to_string()).collect();
+                            let (t, off) = render_l1(&toks);
+                            items.push((format!("shared-name:{}:{}:{}:{}:{}", on, name, bn, kn, first), t, off));
+                        }
+                    }
+                }
+            }
+        }
+    }
     let sw = refdet::sweep_texts(&items, &ds, Mode::Semantic);
     require_must(&mut run, &sw, &["pack_storage_variables", "pack_struct_variables"], "size-sequences");
     let sample = json!({"label": items[items.len() / 2].0, "text": items[items.len() / 2].1});
